@@ -610,7 +610,10 @@ func (fe *FE) havocItem(st *State, cc *Ctx, it, callee string) []string {
 			return nil
 		}
 		cc.what = "modifies " + it
+		savedOld := cc.inOld
+		cc.inOld = cc.old != nil // frame targets are evaluated in the pre-state
 		v := cc.eval(e)
+		cc.inOld = savedOld
 		switch kind {
 		case "mapcontents":
 			mt, ok := v.GoT.Underlying().(*types.Map)
@@ -676,7 +679,10 @@ func (fe *FE) havocItem(st *State, cc *Ctx, it, callee string) []string {
 			return nil
 		}
 		cc.what = "modifies " + it
+		savedOld := cc.inOld
+		cc.inOld = cc.old != nil
 		base := cc.eval(e)
+		cc.inOld = savedOld
 		if base.Kind != VScalar || base.GoT == nil {
 			fe.errorf("modifies %s: base is not a reference", it)
 			return nil
@@ -767,6 +773,9 @@ func (fe *FE) havocCell(st *State, p Val) []string {
 
 // havocRow: heap[name][idx] := fresh (row or scalar).
 func (fe *FE) havocRow(st *State, name string, _ []string, rowSort string, idx string) {
+	if idx != "dummy" {
+		fe.loopFrameOb(st, name, []string{idx})
+	}
 	sortA := "(Array Int " + rowSort + ")"
 	arr := fe.heapTerm(st, name, sortA)
 	fresh := fe.newConst(st, "hv", rowSort)
@@ -934,6 +943,7 @@ func (fe *FE) mapLenAxioms(st *State, mt *types.Map, m, ln string) {
 
 func (fe *FE) mapDelete(st *State, mt *types.Map, m string, key Val) {
 	db, _, lb := mapBases(mt)
+	fe.loopFrameOb(st, db, []string{m})
 	ks := fe.S.scalarSort(mt.Key())
 	sortD := arraySort([]string{SInt, ks}, SBool)
 	h := fe.heapTerm(st, db, sortD)
@@ -995,6 +1005,9 @@ func (fe *FE) execAppend(st *State, args []Val, com *ssa.CallCommon, res ssa.Val
 
 // appendWrite writes t's elements at arr[at...]; if realloc, the row of arr first receives a copy of s.
 func (fe *FE) appendWrite(st *State, arr, at string, t Val, et types.Type, k int, realloc bool, s Val) {
+	if !realloc {
+		fe.loopFrameOb(st, elemBase(et), []string{arr})
+	}
 	for _, c := range fe.components(et) {
 		name := elemBase(et) + c.suffix
 		sortA := arraySort([]string{SInt, SInt}, c.sort)
@@ -1084,6 +1097,7 @@ func (fe *FE) execMapUpdate(st *State, x *ssa.MapUpdate, site string) bool {
 
 func (fe *FE) mapStore(st *State, mt *types.Map, m string, k, v Val) {
 	db, vb, lb := mapBases(mt)
+	fe.loopFrameOb(st, db, []string{m})
 	ks := fe.S.scalarSort(mt.Key())
 	sortD := arraySort([]string{SInt, ks}, SBool)
 	h := fe.heapTerm(st, db, sortD)
